@@ -61,6 +61,35 @@ CLAIMED = {
    "All 3616 parameter lists of length <= 3 (and, thorough, all 50625 of length 4) are validated against a reference validator; every valid list is crossed with all 781 call shapes of <= 4 arguments (thorough: <= 5) and the values received through GetParam are compared with a reference binder; typed getters with well/ill-typed arguments.",
    "Names from {a,b,c,1x,\"\"}; argument values are integer literals.",
    "exhaustive enumeration against a reference binder, plus rapid sampling of longer lists/calls"),
+
+ "C08": ("exploration",
+   "Generated valid base programs are accepted by both loaders; then every (expression slot, offender) pair - 59 offender kinds: unregistered function, each builtin's argument-rule violations, non-string map-key literals; break/continue at every statement position outside loops - is inserted (quick: a random 1/8 of the pairs per base program, thorough: all) and must be rejected by ParseScript and ParseV2 with an error pointing inside the offender; random v2 function tables with CheckPassParam checkers and binding violations; generated statically-valid builtin programs are never rejected.",
+   "Offenders are statically invalid by the documented rules; dynamically wrong programs are not offenders. Base programs to depth 3.",
+   "property-based testing (rapid) with exhaustive slot x offender enumeration per generated base program"),
+ "C10": ("exploration",
+   "Breadth-first exploration of operation sequences on the real point through the builtins (about 150 operations per state, de-duplicated on the abstract state, depth 3 quick / 4 thorough) plus random sequences of length <= 40; after every step the invariants of the property are checked (script read and Point.Get agree with tags/fields incl. type, no key both tag and field, value kinds, drop/rename postconditions).",
+   "State space bounded to 5 keys and 8 value kinds; de-duplication uses the exported Meta map only to distinguish internal states.",
+   "stateful property-based testing: bounded exhaustive BFS over operation sequences + rapid random sequences, invariant oracle"),
+ "C11": ("exploration",
+   "Complete cross product builtin (15) x argument shape (5) x subject situation (6) x subject value (14) with per-builtin call variants (about 10 000 cells), plus random compositions; the whole final point, stdout, returned value and error presence are compared with reference models of the builtins written from fn.md.",
+   "spf13/cast, fmt, strings, regexp, net/url, encoding/json are trusted as the documented conversion primitives.",
+   "exhaustive cross-product enumeration + model-based property testing (rapid)"),
+ "C12": ("exploration",
+   "Random grok programs with add_pattern definitions and grok calls scattered over nested blocks (visible and invisible references, typed captures, trim_space, all subject situations), datetime over the documented layout table, default_time over 16 layouts x 14 zone arguments x subject situations, xml over generated documents x XPath queries, sql_cover over generated SQL and garbage; compared with a reference that applies the same third-party engines under the harness's own lexical scope / lookup / destination model.",
+   "grok, dateparse, xmlquery, obfuscate are trusted engines; process TZ=UTC.",
+   "model-based property testing (rapid) with the engines as oracles, round-trip for times"),
+ "C15": ("exploration",
+   "A generated pool of parse/load/run operations (48 quick / 300 thorough; succeeding, failing mid-loop, exiting, cancelled at poll k, invalid, check-failing, grok/use) gets its reference results from fresh child processes; random histories (length <= 60 / 400) executed in one process must reproduce each reference result exactly.",
+   "Child = same binary re-executed; points go through the point pool; single goroutine so pooled objects are handed back to the next operation.",
+   "property-based testing of histories (rapid) with a differential oracle: fresh-process result vs. in-history result"),
+ "C16": ("exploration",
+   "Race-detector build; rapid-generated scenarios of 2..16 goroutines mixing parsers and runners of shared loaded scripts (grok, add_pattern, use, builtins) with generated start offsets, repeated 20x under GOMAXPROCS 2/4/16; any detector report or any result differing from the sequential result is a violation.",
+   "Schedules are not enumerated: the detector finds unsynchronised conflicting accesses on executed paths; atomicity violations built from synchronised accesses are visible only through result comparison.",
+   "randomised concurrency stress under the Go race detector with a sequential-equivalence oracle (rapid-generated scenarios)"),
+ "C20": ("exploration",
+   "The CLI binary is rebuilt and run as a subprocess on generated (script set, input, mode, format) cases; its output block is compared with what the library yields for the same script and input (line protocol text exactly, JSON structurally with exact numbers, time exactly or within the run window), error cases must print the library's error text and no block.",
+   "One subprocess per case; the measurement given to a text input is compared only when the script sets it.",
+   "differential property-based testing (rapid): CLI subprocess vs. library API"),
 }
 PENDING_REASON = "check not built yet at this commit (work in progress; see DESIGN.md section 4 for the planned PBT design)"
 
